@@ -63,16 +63,16 @@ type held struct {
 type M struct {
 	// FetchFaults, when set, replaces the fault kinds a failing backend fetch draws from.
 	FetchFaults []string
-	Cfg   Cfg
-	S     *stack.Stack
-	P     *fproxy.Proxy
-	T     *rapid.T
-	Step  int
-	Held  []*held
-	Use   map[string]span   // key -> last use
-	Data  map[string][]byte // key -> bytes last accepted for that key (nil = unknown)
-	Log   []string
-	Flags map[string]bool // what this history contained (non-triviality, labels)
+	Cfg         Cfg
+	S           *stack.Stack
+	P           *fproxy.Proxy
+	T           *rapid.T
+	Step        int
+	Held        []*held
+	Use         map[string]span   // key -> last use
+	Data        map[string][]byte // key -> bytes last accepted for that key (nil = unknown)
+	Log         []string
+	Flags       map[string]bool // what this history contained (non-triviality, labels)
 
 	casPool  []gen.Blob
 	acKeys   []string
@@ -327,10 +327,28 @@ func (m *M) FailPut(t *rapid.T) {
 	m.Step++
 	kind, hash, data := m.drawTarget(t)
 	key := cache.LookupKey(kind, hash)
-	mode := rapid.SampledFrom([]string{"short", "long", "readerr", "hash"}).Draw(t, "failMode")
+	mode := rapid.SampledFrom([]string{"short", "long", "readerr", "hash", "nofile"}).Draw(t, "failMode")
 	size := int64(len(data))
 	var r io.Reader
+	var restore func()
 	switch mode {
+	case "nofile":
+		// the file system refuses to create the blob file (here: the shard
+		// directory is gone for the duration of the call); a well-formed upload
+		// fails after its reservation was taken
+		ks := map[cache.EntryKind]string{cache.CAS: "cas.v2", cache.AC: "ac.v2", cache.RAW: "raw.v2"}[kind]
+		shard := filepath.Join(m.S.Dir, ks, hash[:2])
+		if len(m.Held) > 0 || !m.S.WaitEvictions(10*time.Second) || size == 0 {
+			mode, size, r = "short", size+7, bytes.NewReader(data)
+			break
+		}
+		away := shard + ".away"
+		if err := os.Rename(shard, away); err != nil {
+			mode, size, r = "short", size+7, bytes.NewReader(data)
+			break
+		}
+		restore = func() { _ = os.Rename(away, shard) }
+		r = bytes.NewReader(data)
 	case "short": // declared more than delivered
 		size = int64(len(data)) + int64(rapid.IntRange(1, 5000).Draw(t, "shortBy"))
 		r = bytes.NewReader(data)
@@ -355,6 +373,9 @@ func (m *M) FailPut(t *rapid.T) {
 		r = bytes.NewReader(bad)
 	}
 	err := m.S.Cache.Put(context.Background(), kind, hash, size, r)
+	if restore != nil {
+		restore()
+	}
 	m.logf("failput[%s] %s declared=%d -> %v", mode, short(key), size, err)
 	if err == nil {
 		// A "long" AC/RAW upload may legitimately be cut... no: sizes must match.
